@@ -189,3 +189,75 @@ def c16(tier):
                              extra_cov={'sweep_cases': len(paths), 'sweep': 'every truncation length and every offset x {0,1,0x7F,0x80,0xFF} of %d base files' % (3 if tier == 'thorough' else 2)})
     finally:
         shutil.rmtree(d, ignore_errors=True)
+
+@reg('C13')
+def c13(tier):
+    return V.generic_pbt('C13', tier, n_quick=8000, n_thorough=300000, floor=500, assumptions=API_ASSUME +
+                         ['monitors: AddressSanitizer (bounds, use-after-free, alloc/dealloc mismatch) and _GLIBCXX_ASSERTIONS (container indexing); LeakSanitizer and UBSan arithmetic are not part of the verdict',
+                          'the checks of C01-C12, C14, C16, C17 run under the same monitors and report a memory error as a violation of the property being run'])
+
+C17_LIMITS = {
+    # name: (ops template with %d, L, values)
+    'param-description': ('limit 0 %d\n', 255, [254, 255, 256, 400]),
+    'param-name': ('limit 1 %d\n', 127, [126, 127, 128, 200]),
+    'group-name': ('limit 2 %d\n', 127, [126, 127, 128, 200]),
+    'dimension-entry': ('limit 3 %d\n', 255, [254, 255, 256, 1000]),
+    'string-length': ('limit 4 %d\n', 255, [254, 255, 256, 300]),
+    'int-max': ('limit 5 %d\n', 32767, [32766, 32767, 32768, 70000]),
+    'int-min': ('limit 5 %d\n', -32768, [-32767, -32768, -32769, -70000]),
+    'dimensions': ('limit 10 %d\n', 7, [6, 7, 8]),
+    'points': ('limit 6 %d\nprate 8\nlimit 8 2\n', 255, [254, 255, 256, 300]),
+    'channels': ('limit 7 %d\nprate 8\narate 1\nlimit 8 2\n', 255, [254, 255, 256, 300]),
+    'subframes-x-channels': ('limit 7 255\nlimit 12 %d\nlimit 8 1\n', 257, [256, 257, 258, 300]),
+    'frames': ('declp 1 0\nprate 8\nlimit 8 %d\n', 32767, [32766, 32767, 32768, 40000]),
+    'parameter-blocks': ('limit 9 %d\n', 258, [250, 258, 262, 300]),
+}
+
+def c17_cases(tier):
+    import os, itertools
+    d = os.path.join(V.WORK, 'c17-enum-%d' % os.getpid())
+    os.makedirs(d, exist_ok=True)
+    paths = []
+    def emit(name, body):
+        p = os.path.join(d, name + '.case')
+        with open(p, 'w') as f:
+            f.write('property: C17\n' + body)
+        paths.append(p)
+    names = sorted(C17_LIMITS)
+    for n in names:
+        tpl, L, vals = C17_LIMITS[n]
+        for v in vals:
+            emit('%s=%d' % (n, v), tpl % v)
+    # last frame number 65535 (loaded file, saved unchanged) and first-frame offsets around it
+    for first in (65534, 65535):
+        emit('last-frame-first=%d' % first, 'flayout 0 2 0 0 0 0\nfshape 2 0 1 1 %d 7 0 0 3\nfids 0 1 3\nload\n' % first)
+    heavy = {'frames', 'parameter-blocks', 'subframes-x-channels'}
+    pairs = list(itertools.combinations(names, 2))
+    if tier == 'quick':
+        import random
+        rnd = random.Random(V.seed())
+        pairs = [p for p in pairs if not (p[0] in heavy and p[1] in heavy)]
+        rnd.shuffle(pairs)
+        pairs = pairs[:20]
+    for a, b in pairs:
+        if {a, b} & {'points', 'channels', 'subframes-x-channels', 'frames'} == {a, b}:
+            continue          # two shape limits in one object need a common frame set; covered by the random part
+        ta, La, va = C17_LIMITS[a]; tb, Lb, vb = C17_LIMITS[b]
+        # shape-defining limits go last so that frames carry the final shape
+        first, second = (a, b) if b in ('points', 'channels', 'subframes-x-channels', 'frames') else (b, a)
+        for x in C17_LIMITS[first][2][1:3] if tier == 'quick' else C17_LIMITS[first][2]:
+            for y in C17_LIMITS[second][2][1:3] if tier == 'quick' else C17_LIMITS[second][2]:
+                emit('%s=%d+%s=%d' % (first, x, second, y), C17_LIMITS[first][0] % x + C17_LIMITS[second][0] % y)
+    return d, paths
+
+@reg('C17')
+def c17(tier):
+    import shutil
+    d, paths = c17_cases(tier)
+    try:
+        return V.generic_pbt('C17', tier, n_quick=400, n_thorough=6000, floor=40, extra_cases=paths, shards_quick=16,
+                             assumptions=['"within capacity" is decided on the snapshot of the object by rules taken from the C3D format (one-byte lengths and dimensions, 16-bit integers and record offsets, 255 parameter blocks, POINT:FRAMES 16-bit signed)',
+                                          'beyond a limit either a refusal by write() or a faithful round trip is accepted'],
+                             extra_cov={'enumerated_cases': len(paths), 'limits': sorted(C17_LIMITS) + ['last-frame-65535']})
+    finally:
+        shutil.rmtree(d, ignore_errors=True)
